@@ -39,6 +39,8 @@ func Main(args []string) int {
 			return checkC13()
 		case "C14conc":
 			return checkC14conc()
+		case "C14ctl":
+			return checkC14ctl()
 		}
 	case "replay":
 		if len(args) < 2 {
@@ -51,7 +53,7 @@ func Main(args []string) int {
 		}
 		return racePass(args[1])
 	}
-	fmt.Fprintln(os.Stderr, "usage: ed check C15|C10conc|C05mon|C18atom|C03conc|C13conc|C14conc | ed replay <file> | ed racepass <id> | ed worker")
+	fmt.Fprintln(os.Stderr, "usage: ed check C15|C10conc|C05mon|C18atom|C03conc|C13conc|C14conc|C14ctl | ed replay <file> | ed racepass <id> | ed worker")
 	return 2
 }
 
@@ -809,6 +811,15 @@ func checkSimple(prop, harness, evName string) int {
 		if tier == "thorough" {
 			levels = append(levels, Bounds{4, 0, 4})
 		}
+	case "C14ctl":
+		for _, cf := range c14CtlConfigs(tier) {
+			cf := cf
+			jobs = append(jobs, Job{Harness: harness, C14Ctl: &cf})
+		}
+		levels = []Bounds{{0, 0, 0}, {1, 0, 1}, {2, 0, 2}}
+		if tier == "thorough" {
+			levels = append(levels, Bounds{3, 0, 3}, Bounds{4, 0, 4})
+		}
 	case "C14conc":
 		for _, cf := range c14Configs(tier) {
 			cf := cf
@@ -960,6 +971,11 @@ func simpleAssumptions(h string) []string {
 			"each execution builds its own cluster inside the scheduler (register x2, start, add+sync+verify) without exploring that prefix; then the calls run concurrently; map iterations of package controller are in key order",
 			"reference = every sequential order of the same calls, each run to quiescence, AddReplica counting as two events (check+factory.Create | attach) as in E-B's event alphabet; monitor failure = an error put on the backend's monitor channel; the StopMonitoring branch of monitorPing is played by a stub thread",
 			"outcome = per-call results (ok/err, n, data digest) + canonical final state (controller membership, modes, ReadOnly, RW count, checkpoint, reader/writer counts; every node's state, mode, revision counter, chain with generated names renamed, checkpoint, data digest)",
+		}
+	case "C14ctl":
+		return []string{
+			"the controller harness of C18atom (real controller.Controller, packages controller and controller/rest under the scheduler: Controller.RWMutex, the handlers' fan-out goroutines and wait groups, the monitoring goroutines; real *remote.Remote backends in front of E-B's model replica nodes) behind the real controller/rest router; memberships: 3 RW, 2 RW + 1 WO synced, 2 RW of RF 3",
+			"each execution builds its own cluster inside the scheduler (not explored), then the handlers of the configuration's requests run concurrently; oracle: every handler returns, none panics (a double unlock is a panic of the shimmed mutex), afterwards the controller lock is free, GET /v1/volumes and GET /v1/replicas are answered 200 and the membership invariants of C18 hold",
 		}
 	case "C14conc":
 		return []string{
